@@ -123,6 +123,8 @@ class ProtoExporter:
 
         # Create its serialized name
         pmod.name = self.export_module_name(module)
+        # Reserve that name right away, so that clashes with the modules instantiated below are detected too
+        self.modules_by_name[pmod.name] = ModuleMapping(module, pmod)
 
         # Create its Signal-objects, which include the hdl21.Module's Ports
         for sig in list(module.signals.values()) + list(module.ports.values()):
